@@ -56,26 +56,6 @@ Proof.
   destruct (type_equals t1 t2), (convertible e t1 t2), (may_mis_conv e t1 t2); reflexivity.
 Qed.
 
-(* ---- canNameMatch: the model's answer on the two objects; only [warned] flags change *)
-Theorem canNameMatch_is_model : forall l1 l2 tm ic (w : world),
-  exists w', canNameMatch l1 l2 tm ic w = (Returned (can_name_match (load l1 w) (load l2 w) tm ic), w')
-             /\ frame w w'.
-Proof.
-  intros l1 l2 tm ic w.
-  assert (R : frame w w) by (unfold frame; auto).
-  unfold canNameMatch, can_name_match, get_IsGet, get_IsSet, tag_lookup.
-  rewrite !MatchingName_is_model.
-  destruct (f_isget (load l1 w) && f_isget (load l2 w)); [eauto|].
-  destruct (f_isset (load l1 w) && f_isset (load l2 w)); [eauto|].
-  destruct (map_is_nil tm) eqn:N; [destruct tm; [|discriminate]|]; cbn [map_make tm_get];
-    [|destruct (tm_get tm (matching_name (load l1 w))) as [tg|]];
-    (destruct ic; [eauto|]);
-    match goal with |- context [smart_match ?a ?b] => destruct (smart_match a b) end; cbn [negb]; eauto;
-    match goal with |- context [if ?c then _ else _] => destruct c end; eauto;
-    match goal with |- context [if ?c then _ else _] => destruct c end; eauto;
-    eexists; (split; [reflexivity|]); unfold frame; auto.
-Qed.
-
 (* ---- makeTypeMatch.  Symbolic execution of one loop iteration: the world
    operations are unfolded down to the record of arrays and sets ([world_ops]);
    reads of a cell that was written before are moved back to the original array
@@ -109,9 +89,27 @@ Ltac atom b :=
   | false => fail
   | _ => destruct b eqn:?
   end.
+Ltac dead := match goal with H : _ = _ |- _ => discriminate H end.
 Ltac split_ifs :=
   repeat (match goal with |- context [if ?b then _ else _] => atom b end;
-          cbv beta iota delta [negb andb orb]; norm_reads).
+          try dead; cbv beta iota delta [negb andb orb]; norm_reads).
+
+
+(* ---- canNameMatch: the model's answer on the two objects; only [warned] flags change.
+   A nil tag map reads like an empty one; the warning is [prim_warn]: nothing. *)
+Theorem canNameMatch_is_model : forall l1 l2 tm ic (w : world),
+  exists w', canNameMatch l1 l2 tm ic w = (Returned (can_name_match (load l1 w) (load l2 w) tm ic), w')
+             /\ frame w w'.
+Proof.
+  intros l1 l2 tm ic w.
+  unfold canNameMatch, can_name_match, get_IsGet, get_IsSet, tag_lookup, prim_warn, map_make.
+  rewrite !MatchingName_is_model.
+  destruct tm as [|kv tm']; cbv beta iota zeta delta [map_is_nil];
+    [cbn [tm_get] | destruct (tm_get (kv :: tm') (matching_name (load l1 w)))];
+    repeat (match goal with |- context [if ?b then _ else _] => atom b end;
+            try dead; cbv beta iota delta [negb andb orb]);
+    (eexists; split; [reflexivity | unfold frame, set_warned; cbn [w_st w_tags w_flags w_funcs]; auto 6]).
+Qed.
 
 Lemma loop2_is_model : forall js i (w : world),
   exists w', makeTypeMatch_loop2 TE CV IS IF (LSrc i) (map LDst js) w = (Returned tt, w')
@@ -164,6 +162,181 @@ Theorem makeTypeMatch_is_model : forall w : world,
              /\ w_st w' = double_loop (step_match e (w_tags w) (fl_ic (w_flags w))) (w_st w)
              /\ w_tags w' = w_tags w /\ w_flags w' = w_flags w /\ w_funcs w' = w_funcs w.
 Proof. intros w. unfold makeTypeMatch, src_locs, double_loop. apply loop1_is_model. Qed.
+
+(* ================= the mismatch pass (mismatch.go) ================= *)
+
+(* reading Target of a cell that was written: in range it is what the write left, out of range the default *)
+Lemma f_target_nth_upd l i g :
+  f_target (nth i (upd l i g) fdummy) = if Nat.ltb i (List.length l) then f_target (g (nth i l fdummy)) else None.
+Proof.
+  revert i. induction l as [|x l IH]; intros [|i]; simpl; auto. rewrite IH. reflexivity.
+Qed.
+
+Lemma tgt_set_target t f : f_target (set_target t f) = t. Proof. reflexivity. Qed.
+Lemma tgt_set_func n f : f_target (set_func n f) = f_target f. Proof. reflexivity. Qed.
+Lemma tgt_set_isptr b f : f_target (set_isptr b f) = f_target f. Proof. reflexivity. Qed.
+Lemma tgt_fset_canmap b f : f_target (fset_canmap b f) = f_target f. Proof. reflexivity. Qed.
+Lemma tgt_fset_caneach b f : f_target (fset_caneach b f) = f_target f. Proof. reflexivity. Qed.
+Lemma tgt_fset_type t f : f_target (fset_type t f) = f_target f. Proof. reflexivity. Qed.
+Lemma tgt_set_submap b t f : f_target (set_submap b t f) = f_target f. Proof. reflexivity. Qed.
+Lemma is_nil_option_map {A B} (g : A -> B) x : is_nil (option_map g x) = is_nil x.
+Proof. destruct x; reflexivity. Qed.
+
+Ltac tgt_ops :=
+  cbv beta;
+  repeat first [ rewrite tgt_set_target | rewrite tgt_set_func | rewrite tgt_set_isptr | rewrite tgt_fset_canmap
+               | rewrite tgt_fset_caneach | rewrite tgt_fset_type | rewrite tgt_set_submap ].
+Ltac norm_targets :=
+  rewrite ?upd_upd;
+  repeat first [ rewrite (proj_nth_upd f_target) by keeps | rewrite f_target_nth_upd; tgt_ops ].
+
+(* decide conditions: booleans atom by atom, matches on options by their innermost scrutinee *)
+Ltac scrut x :=
+  lazymatch x with
+  | (match ?y with Some _ => _ | None => _ end) => scrut y
+  | (if ?c then _ else _) => atom c
+  | _ => destruct x eqn:?
+  end.
+Ltac split_all :=
+  repeat (first [ match goal with |- context [if ?b then _ else _] => atom b end
+                | match goal with |- context [match ?x with Some _ => _ | None => _ end] => scrut x end ];
+          try dead; cbv beta iota delta [negb andb orb is_nil]; norm_reads; norm_targets).
+
+Ltac frame_ok := cbv beta iota delta [w_st w_tags w_flags w_funcs]; auto 6.
+
+(* ---- makeFuncMap: the loop over the mapper methods, with its break *)
+Lemma funcloop_is_model : forall fns i j (w : world),
+  exists w', makeFuncMap_loop1 TE (LSrc i) (LDst j) fns w = (Returned tt, w')
+             /\ w_st w' = func_loop fns i j (w_st w)
+             /\ w_tags w' = w_tags w /\ w_flags w' = w_flags w /\ w_funcs w' = w_funcs w.
+Proof.
+  induction fns as [|fn fns IH]; intros i j w.
+  - exists w. cbn. auto.
+  - cbn [makeFuncMap_loop1 func_loop].
+    destruct w as [[src dst wsrc wdst rmap wmap] tg fl fn0 wn].
+    cbv beta iota zeta delta [makeFuncMap_after1 get_Target]. rewrite ?is_nil_option_map.
+    world_ops. norm_reads. norm_targets. split_all.
+    all: lazymatch goal with
+      | |- exists w', (Returned tt, ?W) = (Returned tt, w') /\ _ =>
+          exists W; (split; [reflexivity|]); (split; [rewrite ?upd_upd; reflexivity|frame_ok])
+      | |- exists w', makeFuncMap_loop1 _ _ _ _ ?W = _ /\ _ =>
+          destruct (IH i j W) as (w' & E1 & E2 & E3 & E4 & E5); exists w';
+          cbv beta iota delta [w_st w_tags w_flags w_funcs] in E2, E3, E4, E5;
+          (split; [exact E1|]);
+          (split; [etransitivity; [exact E2|]; rewrite ?upd_upd; reflexivity|]);
+          (split; [exact E3|split; [exact E4|exact E5]])
+      end.
+Qed.
+
+Theorem makeFuncMap_is_model : forall i j (w : world),
+  exists w', makeFuncMap TE (LSrc i) (LDst j) w = (Returned tt, w')
+             /\ w_st w' = func_loop (w_funcs w) i j (w_st w)
+             /\ w_tags w' = w_tags w /\ w_flags w' = w_flags w /\ w_funcs w' = w_funcs w.
+Proof. intros. unfold makeFuncMap. apply funcloop_is_model. Qed.
+
+(* ---- makeSubMap: the type assertions of go/types against the model's pattern match on [ty] *)
+(* a type, two levels deep: what the assertions to Pointer / Named can see *)
+Ltac ty_shapes t := destruct t as [?|[| |?] ?|[?|[| |?] ?|?|?|? ?]|?|? ?].
+Ltac type_ops :=
+  cbv beta iota zeta delta [as_pointer as_slice as_named type_elem named_obj obj_pkg obj_name pkg_path pkg_path_of
+                            strip_ptr pkg_eqb fst snd is_nil].
+
+Ltac unchanged := eexists; (split; [reflexivity|]); (split; [reflexivity|frame_ok]).
+
+Theorem makeSubMap_is_model : forall i j typ1 typ2 sl (w : world),
+  exists w', makeSubMap (LSrc i) (LDst j) typ1 typ2 sl w = (Returned tt, w')
+             /\ w_st w' = sub_map i j typ1 typ2 sl (w_st w)
+             /\ w_tags w' = w_tags w /\ w_flags w' = w_flags w /\ w_funcs w' = w_funcs w.
+Proof.
+  intros i j typ1 typ2 sl w. destruct w as [[src dst wsrc wdst rmap wmap] tg fl fn0 wn].
+  unfold makeSubMap, sub_map.
+  (* typ1 is not a named type of the source package (nor a pointer to one): nothing happens, whatever typ2 is *)
+  ty_shapes typ1; type_ops; try unchanged;
+    try (destruct (as_pointer typ2) as [? [|]]; type_ops;
+         repeat match goal with |- context [as_named ?t] => destruct (as_named t) as [? [|]] end;
+         type_ops; unchanged);
+    (* typ1 is: now by the shape of typ2 *)
+    ty_shapes typ2; type_ops; try unchanged;
+    world_ops; norm_reads; split_all;
+    (eexists; (split; [reflexivity|]); (split; [rewrite ?upd_upd; reflexivity|frame_ok])).
+Qed.
+
+Theorem makeSubListMap_is_model : forall i j (w : world),
+  exists w', makeSubListMap (LSrc i) (LDst j) w = (Returned tt, w')
+             /\ w_st w' = sub_list_map i j (w_st w)
+             /\ w_tags w' = w_tags w /\ w_flags w' = w_flags w /\ w_funcs w' = w_funcs w.
+Proof.
+  intros i j w. unfold makeSubListMap, sub_list_map, get_typ, load.
+  destruct (f_ty (src_at (w_st w) i)) as [b|p n|x|e1|k v]; type_ops;
+    try (exists w; (split; [reflexivity|]); (split; [reflexivity|auto 6]));
+    destruct (f_ty (dst_at (w_st w) j)) as [b'|p' n'|x'|e2|k' v']; type_ops;
+    try (exists w; (split; [reflexivity|]); (split; [reflexivity|auto 6])).
+  destruct (makeSubMap_is_model i j e1 e2 true w) as (w' & E1 & E2 & E3).
+  rewrite E1. exists w'. auto.
+Qed.
+
+(* ---- makeTypeMismatch: the loops, one (f1, f2) iteration = [step_mismatch] *)
+Lemma mm_loop2_is_model : forall js i (w : world),
+  exists w', makeTypeMismatch_loop2 TE (LSrc i) (map LDst js) w = (Returned tt, w')
+             /\ w_st w' = fold_left (fun s j => step_mismatch (w_tags w) (fl_ic (w_flags w)) (w_funcs w) i j s) js (w_st w)
+             /\ w_tags w' = w_tags w /\ w_flags w' = w_flags w /\ w_funcs w' = w_funcs w.
+Proof.
+  induction js as [|j js IH]; intros i w.
+  - exists w. cbn. auto.
+  - destruct (canNameMatch_is_model (LSrc i) (LDst j) (w_tags w) (fl_ic (w_flags w)) w) as (w1 & E & F1 & F2 & F3 & F4).
+    cbn [map makeTypeMismatch_loop2 fold_left]. rewrite E. cbn [load].
+    unfold step_mismatch at 2.
+    destruct (can_name_match (src_at (w_st w) i) (dst_at (w_st w) j) (w_tags w) (fl_ic (w_flags w))) eqn:N; cbn [negb].
+    + destruct (makeFuncMap_is_model i j w1) as (w2 & A1 & A2 & A3 & A4 & A5). rewrite A1.
+      destruct (makeSubMap_is_model i j (get_typ (LSrc i) w2) (get_typ (LDst j) w2) false w2) as (w3 & B1 & B2 & B3 & B4 & B5).
+      rewrite B1.
+      destruct (makeSubListMap_is_model i j w3) as (w4 & C1 & C2 & C3 & C4 & C5). rewrite C1.
+      destruct (IH i w4) as (w' & D1 & D2 & D3 & D4 & D5). exists w'.
+      split; [exact D1|].
+      rewrite D2, D3, D4, D5, C2, C3, C4, C5, B2, B3, B4, B5, A2, A3, A4, A5, F1, F2, F3, F4.
+      unfold get_typ, load. rewrite A2, F1, F4. auto.
+    + destruct (IH i w1) as (w' & E1 & E2 & E3 & E4 & E5). exists w'.
+      rewrite F1, F2, F3, F4 in E2. rewrite E3, E4, E5. auto.
+Qed.
+
+Lemma mm_loop1_is_model : forall is (w : world),
+  exists w', makeTypeMismatch_loop1 TE (map LSrc is) w = (Returned tt, w')
+             /\ w_st w' = fold_left (fun s i => fold_left (fun s j => step_mismatch (w_tags w) (fl_ic (w_flags w)) (w_funcs w) i j s)
+                                                          (seq 0 (List.length (s_dst s))) s) is (w_st w)
+             /\ w_tags w' = w_tags w /\ w_flags w' = w_flags w /\ w_funcs w' = w_funcs w.
+Proof.
+  induction is as [|i is IH]; intros w.
+  - exists w. cbn. auto.
+  - cbn [map makeTypeMismatch_loop1 fold_left]. unfold dst_locs.
+    destruct (mm_loop2_is_model (seq 0 (List.length (s_dst (w_st w)))) i w) as (w1 & E1 & E2 & E3 & E4 & E5).
+    rewrite E1. destruct (IH w1) as (w' & G1 & G2 & G3 & G4 & G5). exists w'.
+    rewrite E3, E4, E5 in G2. rewrite E2 in G2. rewrite G3, G4, G5. auto.
+Qed.
+
+(* the two maps are made afresh, then the pass runs *)
+Definition fresh_maps (s : st) : st := mkSt (s_src s) (s_dst s) (s_wsrc s) (s_wdst s) [] [].
+
+Theorem makeTypeMismatch_is_model : forall w : world,
+  exists w', makeTypeMismatch TE w = (Returned tt, w')
+             /\ w_st w' = double_loop (step_mismatch (w_tags w) (fl_ic (w_flags w)) (w_funcs w)) (fresh_maps (w_st w))
+             /\ w_tags w' = w_tags w /\ w_flags w' = w_flags w /\ w_funcs w' = w_funcs w.
+Proof.
+  intros w. unfold makeTypeMismatch, double_loop.
+  destruct (mm_loop1_is_model (seq 0 (List.length (s_src (w_st w)))) (rmap_assign map_make (wmap_assign map_make w)))
+    as (w' & E1 & E2 & E3 & E4 & E5).
+  exists w'. split; [exact E1|]. split; [exact E2|]. auto.
+Qed.
+
+(* both passes, in the order MakeData calls them, are [run_passes] *)
+Theorem passes_are_model : forall w : world,
+  exists w1 w2, makeTypeMismatch TE w = (Returned tt, w1) /\ makeTypeMatch TE CV IS IF w1 = (Returned tt, w2)
+                /\ w_st w2 = run_passes e (w_tags w) (fl_ic (w_flags w)) (w_funcs w) (fresh_maps (w_st w)).
+Proof.
+  intros w. destruct (makeTypeMismatch_is_model w) as (w1 & A1 & A2 & A3 & A4 & A5).
+  destruct (makeTypeMatch_is_model w1) as (w2 & B1 & B2 & _).
+  exists w1, w2. split; [exact A1|]. split; [exact B1|].
+  rewrite B2, A2, A3, A4. reflexivity.
+Qed.
 
 (* the world a model state is run in *)
 Definition world_of (s : st) (tm : tagmap) (ic : bool) (fns : list mfunc) : world :=
